@@ -342,13 +342,27 @@ package dns
 //@    return got, ""
 //@ }
 //@ go var specDomains = []string{"d", "example.org", strings.Repeat("t", 40) + "." + strings.Repeat("u", 40) + ".example.org"}
+//@ go func specDomainList() []string {
+//@    if specThorough() {
+//@       return append(append([]string{}, specDomains...), "t.example.org", strings.Repeat("v", 63)+".tunnel.example.org", strings.Repeat("w", 30)+"."+strings.Repeat("x", 30)+"."+strings.Repeat("y", 30)+"."+strings.Repeat("z", 30)+".example.org")
+//@    }
+//@    return specDomains
+//@ }
+// (thorough tier: every payload length up to 2000 and every 13th up to 8192)
+//@ go func specThorough() bool { return os.Getenv("GOVC_TIER") == "thorough" }
 //@ go func specSizes(big bool) []int {
 //@    var s []int
-//@    for i := 0; i <= 300; i++ {
+//@    dense, step := 300, 7
+//@    if specThorough() {
+//@       dense, step = 2000, 13
+//@    }
+//@    for i := 0; i <= dense; i++ {
 //@       s = append(s, i)
 //@    }
-//@    for i := 301; i <= 1300; i += 7 {
-//@       s = append(s, i)
+//@    for i := dense + 1; i <= 8192; i += step {
+//@       if i <= 1300 || specThorough() {
+//@          s = append(s, i)
+//@       }
 //@    }
 //@    s = append(s, 2048, 4095, 4096, 8191, 8192)
 //@    if big {
@@ -402,7 +416,7 @@ package dns
 //@       codecs = []enc.Encoder{enc.RawEncoding}
 //@       big = true
 //@    }
-//@    for _, domain := range specDomains {
+//@    for _, domain := range specDomainList() {
 //@       ser := commands.Serializer{Domain: domain}
 //@       usable := 0
 //@       for _, down := range codecs {
@@ -554,7 +568,14 @@ package dns
 // domain: the question is a valid DNS name on the wire and the server decodes the same request.
 //@ go func specRequestsSurvive() bool {
 //@    for _, e := range []enc.Encoder{enc.Base32Encoding, enc.Base64Encoding, enc.Base64uEncoding, enc.Base85Encoding, enc.Base91Encoding, enc.Base128Encoding} {
-//@       for _, n := range []int{1, 2, 11, 40, 63, 100, 150} {
+//@       lens := []int{1, 2, 11, 40, 63, 100, 150}
+//@       if specThorough() {
+//@          lens = nil
+//@          for n := 1; n <= 150; n++ {
+//@             lens = append(lens, n)
+//@          }
+//@       }
+//@       for _, n := range lens {
 //@          dc := &ClientDnsConnection{}
 //@          dc.Serializer.Domain = specDomainOfLen(n)
 //@          dc.Serializer.Upstream.Encoder = e
